@@ -630,7 +630,9 @@ let state_line (g : cstate) : string =
   let idx = if not s_held then entries_str g.g_idx.km else "-" in
   let intents = if g.g_I = None then
       "[" ^ String.concat ";" (List.map (fun (k, h) -> hex_of_bytes k ^ "=" ^ hex_of_bytes h) g.g_bykey) ^ "]" else "-" in
-  Printf.sprintf "I=%s S=%s cas=[%s] idx=%s intents=%s" (if g.g_I <> None then "*" else "-") (if s_held then "*" else "-") cas idx intents
+  let prot = if g.g_I = None then
+      "[" ^ String.concat ";" (List.map (fun (h, c) -> hex_of_bytes h ^ "=" ^ decimal_of_n c) g.g_byhash) ^ "]" else "-" in
+  Printf.sprintf "I=%s S=%s cas=[%s] idx=%s intents=%s prot=%s" (if g.g_I <> None then "*" else "-") (if s_held then "*" else "-") cas idx intents prot
 let run_conc (name : string) (lines : string list) =
   let cfg = ref default_cfg in
   let cas0 = ref [] and orphans = ref [] in
